@@ -433,50 +433,68 @@ def exponents(tier):
 
 
 def check_exp(rep, mod, tier):
-    sigs = ['Goldilocks::exp(%s&, %s, unsigned long)' % (E, E), 'Goldilocks::exp(%s, unsigned long)' % E]
-    for sig in sigs:
-        try:
-            name = mod.find(sig)
-        except KeyError:
-            rep.incomplete('exp:' + sig, 'exp-bounded-exponents', '', 'not found')
-            continue
+    # every overload named Goldilocks::exp (found by name: the base may be taken by value or by reference)
+    names = mod.find_re(r'^Goldilocks::exp\(')
+    if not names:
+        rep.incomplete('exp', 'exp-bounded-exponents', '', 'no Goldilocks::exp overload found')
+    first = None
+    for name in names:
+        sig = mod.dem[name]
         site = site_of(mod, name)
-        bad = []
-        n = 0
-        for e in exponents(tier):
-            pp = PPTable()
-            ctx = contracts.Ctx(pp=pp)
-            summ, _ = contracts.wrapper_summaries(mod, ctx)
-            try:
-                eff = harness.run_routine(mod, name, summ, values={'exp': e})
-            except (Incomplete, IRError, Sink) as ex:
-                rep.incomplete('exp:%s e=%d' % (sig, e), 'exp-bounded-exponents', site, str(ex))
-                bad.append(e)
-                break
-            n += 1
-            outp = [p for p in eff.params if p.dty == 'E&']
-            got = eff.writes.get((outp[0].region.name, 0)) if outp else eff.ret
-            got = FV.const(got) if isinstance(got, int) else got
-            b = Poly.var('base')
-            # reference power by plain repeated multiplication in the same AC-normalising table
-            if e == 0:
-                want = Poly.const(1)
-            else:
-                want = None
-                # b^e as a power product: build by binary method in a different order (left-to-right)
-                acc = None
-                for bit in bin(e)[2:]:
-                    if acc is not None:
-                        acc = ctx.mul(acc, acc)
-                    if bit == '1':
-                        acc = b if acc is None else ctx.mul(acc, b)
-                want = acc
-            if not isinstance(got, FV) or got.nf != want:
-                bad.append(e)
-                rep.refute('exp:%s e=%d' % (sig, e), 'exp-bounded-exponents', site, 'exp(base, %d) = %s, expected base^%d' % (e, str(got)[:100], e))
-        if not bad:
-            rep.ok('exp:' + sig, 'exp-bounded-exponents', site, 'base^e for %d exponents (0..%d, 2^k, 2^k+-1, 2^64-1, alternating bit patterns, p, p-1)' % (
-                n, 70 if tier == 'quick' else 299))
+        ps0 = [p for p in harness.describe(mod, name) if not p.is_this]
+        outs0 = [p for p in ps0 if p.dty == 'E&']
+        bases = [p for p in ps0 if p.dty in ('E', 'E const&')]
+        exps = [p for p in ps0 if p.irty[0] == 'i' and p.dty != 'E']
+        if len(bases) != 1 or len(exps) != 1:
+            rep.incomplete('exp:' + sig, 'exp-bounded-exponents', site, 'parameters are not (result,) base, exponent')
+            continue
+        if outs0 and first is None:
+            first = name
+        hyps = [None]
+        if outs0 and bases[0].dty == 'E const&':
+            hyps.append({bases[0].name: outs0[0].name})        # in place: exp(x, x, e)
+        for al in hyps:
+            tag0 = 'exp:' + sig + ('' if not al else ' alias=%s=%s' % list(al.items())[0])
+            bad = []
+            n = 0
+            for e in exponents(tier):
+                pp = PPTable()
+                ctx = contracts.Ctx(pp=pp)
+                summ, _ = contracts.wrapper_summaries(mod, ctx)
+                try:
+                    eff = harness.run_routine(mod, name, summ, values={exps[0].name: e}, alias=al)
+                except (Incomplete, IRError, Sink) as ex:
+                    rep.incomplete('%s e=%d' % (tag0, e), 'exp-bounded-exponents', site, str(ex))
+                    bad.append(e)
+                    break
+                n += 1
+                outp = [p for p in eff.params if p.dty == 'E&']
+                got = eff.writes.get((outp[0].region.name, 0)) if outp else eff.ret
+                got = FV.const(got) if isinstance(got, int) else got
+                bp = [p for p in eff.params if p.name == bases[0].name][0]
+                b = Poly.var(bp.name) if bp.dty == 'E' else Poly.var('%s[0]' % bp.region.name)
+                # reference power by the binary method in a different order (left-to-right), same AC-normalising table
+                if e == 0:
+                    want = Poly.const(1)
+                else:
+                    acc = None
+                    for bit in bin(e)[2:]:
+                        if acc is not None:
+                            acc = ctx.mul(acc, acc)
+                        if bit == '1':
+                            acc = b if acc is None else ctx.mul(acc, b)
+                    want = acc
+                if not isinstance(got, FV) or got.nf != want:
+                    bad.append(e)
+                    rep.refute('%s e=%d' % (tag0, e), 'exp-bounded-exponents', site, 'exp(base, %d) = %s, expected base^%d' % (e, str(got)[:100], e))
+                    if len(bad) >= 5:
+                        break
+            if not bad:
+                rep.ok(tag0, 'exp-bounded-exponents', site, 'base^e for %d exponents (0..%d, 2^k, 2^k+-1, 2^64-1, alternating bit patterns, p, p-1)' % (
+                    n, 70 if tier == 'quick' else 299))
+    sigs = [mod.dem[first]] if first else [mod.dem[n_] for n_ in names[:1]]
+    if not sigs:
+        return
     # termination: the loop variable is halved every iteration and the loop leaves when it becomes zero
     name = mod.find(sigs[0])
     smod = front.module('avx2', sroa=True)
